@@ -31,6 +31,8 @@ type Config struct {
 	Marker   bool `json:"marker"`             // fence every step with a marker write
 	KeysOnly bool `json:"keysOnly,omitempty"` // additionally register a KeysOnly feed on every collection BEFORE the full feeds
 	MaxDoc   int  `json:"maxDoc,omitempty"`
+	Name     string `json:"name,omitempty"` // fixed bucket name (crash engine); the bucket lives in <tmp>/<name>
+	Reopen   bool   `json:"reopen,omitempty"` // open an existing on-disk bucket instead of creating it
 }
 
 var bucketSerial uint64
@@ -146,6 +148,9 @@ func NewEnv(cfg Config, tmp string) (*Env, error) {
 	for bi := 0; bi < cfg.Buckets; bi++ {
 		n := atomic.AddUint64(&bucketSerial, 1)
 		be := &BucketEnv{Name: fmt.Sprintf("vb%d_%d", os.Getpid(), n)}
+		if cfg.Name != "" {
+			be.Name = cfg.Name
+		}
 		if cfg.Disk {
 			be.Dir = filepath.Join(tmp, be.Name)
 			be.URL = "rosmar://" + be.Dir
@@ -154,6 +159,9 @@ func NewEnv(cfg Config, tmp string) (*Env, error) {
 		}
 		for h := 0; h < cfg.Handles; h++ {
 			mode := rosmar.CreateNew
+			if cfg.Reopen {
+				mode = rosmar.ReOpenExisting
+			}
 			if h > 0 {
 				mode = rosmar.ReOpenExisting
 				if !cfg.Disk {
